@@ -98,7 +98,7 @@ def main():
                 'findings are in known_findings.json; fixed defects are '
                 'recorded there with their fix: commits. The thorough tier adds '
                 'the self-validation of the checker (hand variants, 218 kept '
-                'seeded changes, 309 kept behaviour-preserving refactorings, '
+                'seeded changes, 311 kept behaviour-preserving refactorings, '
                 'mutation and equivalence sweeps). See DESIGN.md for what each '
                 'rule decides and its blind spots.'),
   }
